@@ -190,6 +190,37 @@ def api_call(api, ptype, k):
         arm.append(ham)
         thunk = lambda: oqupy.compute_correlations_nt(s, identity_pt(N), [SZ, SZ, SZ], [0, 1, slice(None)], ["left", "right", "left"],
                                                       initial_state=rho0, progress_type=ptype)
+    elif api == "compute_dynamics:final-only":
+        # only the final state is recorded
+        s = oqupy.TimeDependentSystem(ham)
+        arm.append(ham)
+        thunk = lambda: oqupy.compute_dynamics(s, initial_state=rho0, process_tensor=identity_pt(N), record_all=False,
+                                               subdiv_limit=None, progress_type=ptype)
+    elif api == "compute_dynamics_with_field:final-only":
+        eom = failing_after(k, lambda t, st, a: -0.1j * a)
+        fs = oqupy.TimeDependentSystemWithField(lambda t, a: 0.5 * SX)
+        mfs = oqupy.MeanFieldSystem([fs], field_eom=eom)
+        arm.append(eom)
+        thunk = lambda: oqupy.compute_dynamics_with_field(mfs, 0.5, dt=DT, num_steps=N, initial_state_list=[rho0], record_all=False,
+                                                          subdiv_limit=None, progress_type=ptype)
+    elif api == "nothing-to-do":
+        # calls that have no step left to take: a grid of zero steps, a target that has been reached before
+        s = oqupy.TimeDependentSystem(ham)
+        arm.append(ham)
+        t = oqupy.Tempo(oqupy.System(0.5 * SX), bath, params, rho0, 0.0)
+        chain = oqupy.SystemChain([2, 2])
+        chain.add_site_hamiltonian(0, 0.5 * SX)
+        tebd = oqupy.PtTebd(oqupy.AugmentedMPS([rho0.copy(), rho0.copy()]), chain, [None, None],
+                            oqupy.PtTebdParameters(dt=DT, order=2, epsrel=1e-9), dynamics_sites=[0])
+
+        def thunk():
+            oqupy.compute_dynamics(s, initial_state=rho0, dt=DT, num_steps=0, subdiv_limit=None, progress_type=ptype)
+            t.compute(0.0, progress_type=ptype)
+            t.compute(2 * DT, progress_type=ptype)
+            t.compute(DT, progress_type=ptype)
+            tebd.compute(1, progress_type=ptype)
+            tebd.compute(1, progress_type=ptype)
+            oqupy.compute_dynamics(s, initial_state=rho0, dt=DT, num_steps=N, subdiv_limit=None, progress_type=ptype)
     else:
         raise ValueError(api)
     for f in arm:
@@ -199,8 +230,11 @@ def api_call(api, ptype, k):
 
 APIS = ["compute_dynamics", "compute_dynamics_with_field", "state_gradient:hamiltonian", "state_gradient:target",
         "Tempo", "MeanFieldTempo", "PtTempo", "GibbsTempo", "PtTebd", "compute_correlations", "PtTebd:multithread",
-        "compute_correlations:single", "compute_correlations_nt"]
+        "compute_correlations:single", "compute_correlations_nt", "compute_dynamics:final-only",
+        "compute_dynamics_with_field:final-only", "nothing-to-do"]
 MANUAL_SITES = {"compute_dynamics": "compute_dynamics", "compute_dynamics_with_field": "compute_dynamics_with_field",
+                "compute_dynamics:final-only": "compute_dynamics", "compute_dynamics_with_field:final-only": "compute_dynamics_with_field",
+                "nothing-to-do": "compute_dynamics",
                 "state_gradient:hamiltonian": "compute_gradient_and_dynamics",
                 "state_gradient:target": "compute_gradient_and_dynamics"}
 
